@@ -3,7 +3,8 @@
 /verif/seeded/<ID>_<k>/ with meta.json recording the integrator's confirmation and the check's verdict."""
 import json, sys, os, shutil, glob
 i, k = sys.argv[1], sys.argv[2]; note = sys.argv[3] if len(sys.argv) > 3 else ""
-src = "/tmp/mut_%s_out/%s" % (i, k); dst = "/verif/seeded/%s_%s" % (i, k)
+# optional: VF_SEED_SRC=<dir holding patch.diff etc.>, VF_SEED_RUN=<check output file> (defaults: first-round locations)
+src = os.environ.get("VF_SEED_SRC") or "/tmp/mut_%s_out/%s" % (i, k); dst = "/verif/seeded/%s_%s" % (i, k)
 os.makedirs(dst, exist_ok=True)
 for f in glob.glob(src + "/*"):
     b = os.path.basename(f)
@@ -13,7 +14,7 @@ for f in glob.glob(src + "/*"):
         open(os.path.join(dst, b), "w").write(open(f, errors="replace").read()[-3000:])
 m = json.load(open(src + "/meta.json"))
 conf = open(src + "/confirm.log").read().strip().split("\n")[-1] if os.path.exists(src + "/confirm.log") else "not confirmed"
-res = open("/var/tmp/runs/mut_%s_%s.out" % (i, k)).read()
+res = open(os.environ.get("VF_SEED_RUN") or "/var/tmp/runs/mut_%s_%s.out" % (i, k)).read()
 viol = [l for l in res.split("\n") if l.startswith("VIOLATION")]
 m.update({"breaks_property": i, "origin": "independent sub-agent given only the property text and a scratch worktree",
           "confirmed_by_integrator": conf + "  (lib/confirm_mutant.sh: with the patch the demo fails and `make check` gives 19 PASS; without it the demo passes)",
